@@ -144,7 +144,7 @@ func VerifC06_LongUsername() {
 		if len(req) > 5 && req[5] == 0x12 {
 			rakp1++
 			// decided at the moment of transmission: a RAKP Message 1 must never go out for this username
-			vAssert(false, "c06-no-rakp1-is-sent-for-an-overlong-username")
+			vAssert(false, "?c06-no-rakp1-is-sent-for-an-overlong-username")
 		}
 		return bmc.handle(req), nil
 	}
